@@ -37,6 +37,7 @@ MismatchReps ==
      M("validate", "int64", "const"), M("validate", "uint32", "const"), M("validate", "uint64", "in"), M("validate", "float", "const"),
      M("validate", "double", "const"), M("validate", "double", "gt"), M("validate", "bool", "const"), M("validate", "enum", "in_missing"),
      M("validate", "enum", "defined_only"), M("validate", "repeated", "min_items"), M("validate", "repeated", "items_string"),
+     M("validate", "repeated", "ignore_noitems"), M("validate", "repeated", "ignore_items"), M("validate", "repeated", "empty"), M("validate", "map", "empty"),
      M("validate", "repeated", "items_bool"), M("validate", "map", "values_string"), M("validate", "map", "values_bool"),
      M("validate", "timestamp", "const"), M("validate", "any", "in"), M("validate", "duration", "gt"), M("validate", "bytes", "min_len"),
      M("j5", "message", "flatten"), M("j5", "object", "flatten"), M("j5", "any", "types"), M("j5", "key", "uuid"), M("j5", "key", "unspecified"),
